@@ -458,20 +458,37 @@ def runSteps : List (Bytes → Except PyErr Bytes) → Bytes → Option PyErr ×
 def parentSteps (parents : List PAtom) (delta : Int) : List (Bytes → Except PyErr Bytes) :=
   if delta = 0 then [] else parents.map fun a => fun g => patchSize g a.offset delta
 
-/-- the steps of `__update_offsets`: stco then co64 below the first `moov`, then tfhd below the
-first `moof` (`atoms[b"moof"]`; KeyError = no moof = nothing to do) -/
+/-- the atoms `__update_offsets` visits, in order, with the entry width (0 marks a `tfhd`): `stco`
+then `co64` below the first `moov`, then `tfhd` below the first `moof` (`atoms[b"moof"]`; KeyError =
+no moof = nothing more to do) -/
+def visited (atoms : List PAtom) : List (Nat × PAtom) :=
+  match child? atoms nMoov with
+  | none => []
+  | some moov =>
+    (moov.findall nStco).map (fun a => (4, a)) ++ (moov.findall nCo64).map (fun a => (8, a)) ++
+      (match child? atoms nMoof with
+       | none => []
+       | some moof => (moof.findall nTfhd).map (fun a => (0, a)))
+
+/-- every table atom the parsed file has: `stco` / `co64` below ANY top-level `moov`, `tfhd` below ANY
+top-level `moof` (what `__update_offsets` would have to visit) -/
+def allTables (atoms : List PAtom) : List (Nat × PAtom) :=
+  ((atoms.filter (·.name = nMoov)).flatMap fun m => (m.findall nStco).map (fun a => (4, a))) ++
+  ((atoms.filter (·.name = nMoov)).flatMap fun m => (m.findall nCo64).map (fun a => (8, a))) ++
+  ((atoms.filter (·.name = nMoof)).flatMap fun m => (m.findall nTfhd).map (fun a => (0, a)))
+
+/-- `__update_offset_table(fileobj, fmt, atom, delta, offset)` / `__update_tfhd(...)` as a step -/
+def tableStep (delta : Int) (offset : Nat) (t : Nat × PAtom) : Bytes → Except PyErr Bytes := fun g =>
+  if t.1 = 0 then updateTfhd g (shifted t.2 delta offset) t.2.length delta offset
+  else updateOffsetTable g t.1 (shifted t.2 delta offset) t.2.length delta offset
+
+/-- the steps of `__update_offsets` (`atoms[b"moov"]` missing: KeyError) -/
 def offsetSteps (atoms : List PAtom) (delta : Int) (offset : Nat) : List (Bytes → Except PyErr Bytes) :=
   if delta = 0 then []
   else
     match child? atoms nMoov with
     | none => [fun _ => .error .key]
-    | some moov =>
-      ((moov.findall nStco).map fun a => fun g => updateOffsetTable g 4 (shifted a delta offset) a.length delta offset) ++
-      ((moov.findall nCo64).map fun a => fun g => updateOffsetTable g 8 (shifted a delta offset) a.length delta offset) ++
-      (match child? atoms nMoof with
-       | none => []
-       | some moof =>
-         (moof.findall nTfhd).map fun a => fun g => updateTfhd g (shifted a delta offset) a.length delta offset)
+    | some _ => (visited atoms).map (tableStep delta offset)
 
 /-- what `__save_existing` / `__save_new` do to the file once the new bytes are rendered: replace
 `[offset, offset+old)` by `new`, then `__update_parents(parents, delta)`, then
